@@ -51,6 +51,7 @@ Definition okey (o : out) : N :=
   | ODone => mk 9 0 0
   | OCloseRet o _ => mk 10 (N.of_nat o) 0
   | OPeerClosed => mk 11 0 0
+  | OSetMode _ => mk 13 0 0
   | OSProgRet r _ => mk 12 r 0
   end.
 
